@@ -6,6 +6,19 @@ import Tahoe.Dir.EditLemmas
     `norm` is `normalize` (NFC); the only thing assumed about it is idempotence
     (`norm (norm x) = norm x`), which `move_child_to`, `set_metadata_for`, `create_subdirectory`
     and `add_file` rely on (they normalize a name and hand it to a modifier that normalizes again). -/
+/-! ## Coverage of the statement (C20, properties.jsonl)
+
+| clause of the statement | theorem(s) for the model `Tahoe.Dir.Edit` |
+|---|---|
+| "any history of add, replace, delete, rename and set-metadata operations on directories behaves like updates to a map from normalized names to (child, metadata)" | `refines_map` (any history, any number of directories, every idempotent `normalize`; the map is `Name → Option (Node × Meta)`, i.e. caps × metadata, the updates `AMap.set`/`AMap.del` at the normalized name; results and errors included), `names_equal_up_to_normalization` |
+| what "(child, metadata)" is after an update — the metadata rules of `update_metadata` (caller's metadata replaces the user keys, `None` keeps them, an empty dict clears them, the caller's 'tahoe' is ignored, the entry's 'tahoe' keys survive, `ctime` fallback) | `metadata_rules` (key by key), used by the map specification through `stored` |
+| "a no-overwrite add never replaces an entry" | `no_overwrite_never_replaces` (single writer, all adding operations); two concurrent writers (UncoordinatedWriteError retry, `first_time = False`): **monitor only** |
+| "an only-files add never replaces a directory" | `only_files_never_replaces_dir` |
+| "a failed rename leaves the child linked under its old name" | `failed_rename_keeps_old_link`, `rename_never_loses_child` (also the success and the redundant-rename cases) |
+| "an entry's link-creation time survives updates while its modification time advances" | `linkcrtime_preserved_linkmotime_now`, `linkmotime_monotone` |
+| re-creation of the child node from the stored caps on the next read | C19 (`unpack_pack`, `canon_*`); here a stored child *is* its (kind, write cap, read cap): **correspondence** (listing after every op) |
+| read-only handles, `create_subdirectory`/`add_file` side effects (upload, new directory) | handles: in the model (`NotWriteable`, `viewThrough`); uploads: **not covered** |
+-/
 namespace Tahoe.C20
 open Tahoe.Dir.Edit
 
@@ -218,6 +231,41 @@ example : ((step (fun (x : String) => x)
       (.setNode ⟨0, false⟩ "a" ⟨.file, none, some 2, false⟩ (some ⟨[("k", .null)], none⟩) .yes false)).1 0)
     = [("a", (⟨.file, none, some 2, false⟩,
               ⟨[("k", .null)], some [("linkcrtime", .time 3), ("linkmotime", .time 9)]⟩))] := by decide
+
+/-- **The metadata rules of a link update** (`update_metadata(old, new, now)`, shared by every add and by
+    set_metadata_for; it is what the map specification stores — `stored`).  Key by key:
+    * user keys (everything except 'tahoe'): metadata given → exactly the given keys (an empty dict *clears* them);
+      `None` given → the old keys stay;
+    * the caller's 'tahoe' sub-dict is ignored: every 'tahoe' key other than the two timestamps is the old entry's;
+    * `linkmotime = now`; `linkcrtime` is the old one if there was one, else the old `ctime` user key unless it
+      is absent or null, else `now`. -/
+theorem metadata_rules (old : Option Meta) (nm : Meta) (now : Nat) :
+    (updateMetadata old (some nm) now).user = nm.user ∧
+    (updateMetadata old none now).user = (old.getD Meta.empty).user ∧
+    (∀ new k, k ≠ "linkcrtime" → k ≠ "linkmotime" →
+      (updateMetadata old new now).sys k = (old.getD Meta.empty).sys k) ∧
+    (∀ new, (updateMetadata old new now).sys "linkmotime" = some (.time now)) ∧
+    (∀ new o c, old = some o → o.sys "linkcrtime" = some c → (updateMetadata old new now).sys "linkcrtime" = some c) ∧
+    (∀ new o, old = some o → o.sys "linkcrtime" = none → (updateMetadata old new now).sys "linkcrtime" =
+      some ((match lookup "ctime" o.user with
+             | some v => if v = Val.null then none else some v
+             | none => none).getD (.time now))) ∧
+    (∀ new, (updateMetadata none new now).sys "linkcrtime" = some (.time now)) := by
+  refine ⟨updateMetadata_user_some old nm now, updateMetadata_user_none old now,
+    fun new k h1 h2 => updateMetadata_sys_other old new now k h1 h2,
+    fun new => updateMetadata_motime old new now, ?_, ?_, fun new => updateMetadata_crtime_new new now⟩
+  · intro new o c ho hc; subst ho; exact updateMetadata_crtime o new now c hc
+  · intro new o ho hc; subst ho; exact updateMetadata_crtime_fallback o new now hc
+
+/-- `None` keeps the user metadata, `{}` clears it, a supplied 'tahoe' is ignored, an old `ctime` becomes the
+    `linkcrtime` (the distinctions of seeded change C20-c) -/
+example :
+    let old : Meta := ⟨[("k", .other true "1"), ("ctime", .other true "12345")], some [("extra", .null)]⟩
+    updateMetadata (some old) none 9 =
+      ⟨[("k", .other true "1"), ("ctime", .other true "12345")],
+       some [("extra", .null), ("linkcrtime", .other true "12345"), ("linkmotime", .time 9)]⟩ ∧
+    updateMetadata (some old) (some ⟨[], some [("linkcrtime", .time 1)]⟩) 9 =
+      ⟨[], some [("extra", .null), ("linkcrtime", .other true "12345"), ("linkmotime", .time 9)]⟩ := by decide
 
 /-- clock values of a history never go backwards (starting from `T`) -/
 def clockOk : Nat → List (Nat × Op Name C) → Prop
